@@ -1396,6 +1396,13 @@ def num_method(ev, x: Num, name, args, kwargs, fr, node):
         return Num(x.expr / u_, kind="array" if x.shape else "number", shape=x.shape, axes=x.axes)
     if name == "astype":
         dt = args[0] if args else kwargs.get("dtype")
+        tn = _dtype_name(dt)
+        whole = x.expr.is_integer is True or x.expr.func in (sp.floor, sp.ceiling) or getattr(x.expr.func, "__name__", "") in ("Int", "Round")
+        if tn is not None and tn.startswith(("int", "uint")) and not whole \
+                and not (_dtype_name(x.dtype) or "").startswith(("int", "uint", "bool")):
+            # a cast to an integer type truncates towards zero whatever is not already a whole number
+            ev.trace.append(("integer-cast", tn, str(x.expr)[:80], node))
+            return x.like(F["Int"](x.expr), unit=x.unit, dtype=dt)
         return x.like(x.expr, unit=x.unit, dtype=dt)
     if name in ("conj", "conjugate"):
         return x.like(sp.conjugate(x.expr), unit=x.unit)
@@ -2695,8 +2702,19 @@ def _fft_like(fname):
             # the index of the transformed axis is summed over; element indices of the other axes stay aligned
             axes_out = [None if i == int(axis.expr) % len(shape) else a_ for i, a_ in enumerate(x.axes)]
         return Num(F[fname](x.expr, ax, *extra), kind=x.kind if x.kind != "number" else "array", shape=shape, axes=axes_out,
-                   backend=x.backend, tag=x.tag, dtype=x.dtype)
+                   backend=x.backend, tag=x.tag, dtype=fft_result_dtype(fname, x.dtype))
     return h
+
+
+def fft_result_dtype(fname, dt):
+    """dtype of a scipy/numpy FFT result: single precision only for float32/complex64 (and float16) input; real for irfft/hfft."""
+    nm = _dtype_name(dt)
+    if nm is None:
+        return dt
+    single = nm in ("float32", "complex64", "float16")
+    if fname in ("IFFT_irfft", "IFFT_irfft2", "IFFT_irfftn", "FFT_hfft"):
+        return ExtV("numpy.float32" if single else "numpy.float64")
+    return ExtV("numpy.complex64" if single else "numpy.complex128")
 
 
 def _shift_like(fname):
